@@ -888,12 +888,12 @@ func TestVerifC22(t *testing.T) {
 					bok = false
 				}
 				if bok != cok || (bok && bv != cv) {
-					finding = "map-stream-loss-undetected/diverged"
+					finding = "map-stream-loss-undetected"
 				}
 			}
 		}
 		if s.falseRecovered {
-			finding = "map-stream-loss-undetected/false-recovered"
+			finding = "map-stream-loss-undetected"
 		}
 		if s.bad != "" {
 			t.Errorf("case %d (%s): driver problem: %s", i, class, s.bad)
